@@ -173,3 +173,7 @@ def run(ctx: Ctx, rep: Report, tier: str):
     c = C05(ctx, rep)
     c.run()
     c.v10()
+    from rules.common import hash_conflict_definition
+    rep.rule("C05.V7", "the resolver is consulted when - and only when - both sides carry different unsynchronised content: hash_conflict() = both sides have "
+             "hash and path and both hashes differ from their last-synced value", expect_min=1)
+    hash_conflict_definition(ctx, rep, "C05.V7")
